@@ -12,11 +12,13 @@ package handlers
 
 //@ func NormaliseProviderType
 //@   property C11
+//@   safety
 //@   ensures res == normType(provider)
 //@   ensures provider != "" ==> res != ""
 
 //@ func (a *Application) extractRequiredCapabilities
 //@   property C11
+//@   safety
 //@   requires caps != nil
 //@   ensures true
 
@@ -108,6 +110,7 @@ package handlers
 
 //@ func keepCompatibleEndpoints
 //@   property C11
+//@   safety
 //@   requires allNonNil(endpoints) && profile != nil
 //@   loop 1 invariant forall k int :: 0 <= k && k < len(compatible) ==> member(compatible[k], endpoints) && epCompatible(compatible[k], profile.SupportedBy)
 //@   loop 1 invariant forall j int :: 0 <= j && j < i$1 && epCompatible(endpoints[j], profile.SupportedBy) ==> member(endpoints[j], compatible)
@@ -223,6 +226,7 @@ package handlers
 
 //@ func newResponseRecorder
 //@   property C14 C05
+//@   safety
 //@   ensures res != nil && fresh(res) && res.body != nil && res.headers != nil && fresh(res.headers) && res.status == 200
 //@   defines ghost(res).hdr == res.headers
 
@@ -287,6 +291,7 @@ package handlers
 // (status, the once) and whether the engine has answered at all (ghost started) are arbitrary.
 //@ func newStreamingResponseRecorder
 //@   property C05
+//@   safety
 //@   ensures res != nil && fresh(res) && res.status == 200 && res.headers != nil && fresh(res.headers)
 //@   defines ghost(res).hdr == res.headers
 
